@@ -50,7 +50,8 @@ CONSTANTS Threads,     \* thread ids
           MAXRES,      \* MAX_RESIZERS
           STAMPCHECK,  \* help_transfer compares the stamp bits of size_ctl (fix b4617bf)
           ACSTAMPCHECK, \* add_count does so too before joining a resize (fix for finding F7)
-          TRAVOFF      \* 0 = the traverser as written; 1 = an off-by-one in recover_state (self-test of IterWeak)
+          TRAVOFF,     \* 0 = the traverser as written; 1 = an off-by-one in recover_state (self-test of IterWeak)
+          RETAINCHECK  \* TRUE = retain removes an entry only if its value is still the one the predicate saw
 
 VARIABLES tabs, ntabs, table, nextTable, sizeCtl, transferIndex, count,
           node, nextId, lockOwner, pc, idx, loc,
@@ -74,14 +75,18 @@ OpId(t) == <<t, idx[t]>>
 TLen(tb) == tabs[tb].len
 BinI(tb, k) == HashOf[k] % TLen(tb)
 IsRead(o) == o.op \in {"get", "get_key_value", "contains_key", "iter"}
+RetainOps == {"retain", "retain_force"}
+\* the predicates of the retain calls in programs (o.f): on the key id
+Keep(f, k) == CASE f = "all" -> TRUE [] f = "none" -> FALSE [] f = "even" -> k % 2 = 0 [] f = "odd" -> k % 2 = 1 [] OTHER -> TRUE
 L0 == [tb |-> 0, b |-> NULL, p |-> NULL, i |-> 0, bound |-> 0, adv |-> FALSE, fin |-> FALSE,
        xt |-> 0, nt |-> 0, n |-> 0, sc |-> 0, c |-> 0, ret |-> "", lo |-> NULL, hi |-> NULL,
        r |-> NoRes, hint |-> FALSE, after |-> "", req |-> 0,
+       itb |-> 0, rk |-> 0, ov |-> 0,     \* retain: the traverser's table while replace_node runs, the judged key and value
        \* traverser (iter/traverser.rs): stack of <<table, length, index>>, prev node, candidate e
        stk |-> <<>>, prev |-> NULL, e |-> NULL, ix |-> 0, bi |-> 0, bl |-> 0, bs |-> 0]
 EmptyTab(n) == [len |-> n, bins |-> [j \in 0..n-1 |-> NULL], next |-> 0]
 NoTab == [len |-> 0, bins |-> <<>>, next |-> 0]
-NoIter == [on |-> FALSE, done |-> FALSE, atc |-> {}, ever |-> {}, touched |-> {}, yl |-> <<>>]
+NoIter == [on |-> FALSE, done |-> FALSE, atc |-> {}, ever |-> {}, touched |-> {}, yl |-> <<>>, rm |-> {}]
 
 \* initial heap: InitKeys[j] lives in node j; nodes of one bin are chained in insertion order
 NK == Len(InitKeys)
@@ -144,7 +149,7 @@ Call(t) ==
 (* ------------------------------------------------------------------------ *)
 (* entry of every per-key operation: self.table.load                        *)
 LoadTable(t) ==
-  /\ pc[t] = "LoadTable" /\ CurOp(t).op \notin {"iter", "clear", "reserve"}
+  /\ pc[t] = "LoadTable" /\ CurOp(t).op \notin {"iter", "clear", "reserve"} \cup RetainOps
   /\ IF table = 0
      THEN IF CurOp(t).op \in {"insert", "try_insert", "compute"}
           THEN Goto(t, "InitLoadTable") /\ UNCHANGED loc /\ UNCHANGED <<res, doneOps, idx>>   \* init_table
@@ -325,6 +330,8 @@ AcFetch(t) ==     \* count.fetch_add / fetch_sub; the new count as the (fixed) c
   /\ count' = count + loc[t].c
   /\ IF loc[t].hint
      THEN SetLoc(t, [loc[t] EXCEPT !.c = count + loc[t].c]) /\ Goto(t, "AcLoadSc") /\ UNCHANGED <<res, doneOps, idx>>
+     ELSE IF CurOp(t).op \in RetainOps
+     THEN SetLoc(t, [loc[t] EXCEPT !.tb = loc[t].itb]) /\ Goto(t, "ItNext") /\ UNCHANGED <<res, doneOps, idx>>   \* on with the traversal
      ELSE Finish(t, loc[t].r)
   /\ UNCHANGED <<sizeCtl, transferIndex, before>> /\ UnchHeap /\ UnchTab /\ UnchRz
 AcDone(t) == Finish(t, loc[t].r) /\ UNCHANGED before /\ UnchRz
@@ -386,6 +393,8 @@ HLoadNt(t) ==     \* table.next_table
 HExit(t) ==
   IF CurOp(t).op = "clear"
   THEN SetLoc(t, [loc[t] EXCEPT !.tb = loc[t].nt, !.ix = 0]) /\ Goto(t, "ClrLoadBin")   \* idx = 0 in the new table
+  ELSE IF CurOp(t).op \in RetainOps
+  THEN SetLoc(t, [loc[t] EXCEPT !.tb = loc[t].nt]) /\ Goto(t, "RtLoadBin")             \* replace_node's loop
   ELSE SetLoc(t, [loc[t] EXCEPT !.tb = loc[t].nt]) /\ Goto(t, "LoadBin")
 HLoopNt(t) ==     \* next_table == self.next_table.load()
   /\ pc[t] = "HLoopNt"
@@ -662,12 +671,12 @@ ClrReval(t) ==    \* still the head? store_bin(idx, null); unlock; (walk and ret
 
 (* ---- iterators: NodeIter (iter/traverser.rs) -------------------------------- *)
 ItNew(t) ==       \* HashMap::iter: self.table.load; the iterator exists from here on
-  /\ pc[t] = "LoadTable" /\ CurOp(t).op = "iter"
+  /\ pc[t] = "LoadTable" /\ CurOp(t).op \in {"iter"} \cup RetainOps
   /\ LET n == IF table = 0 THEN 0 ELSE TLen(table) IN
      SetLoc(t, [loc[t] EXCEPT !.tb = table, !.stk = <<>>, !.prev = NULL, !.e = NULL, !.ix = 0, !.bi = 0, !.bl = n, !.bs = n])
   /\ ith' = [ith EXCEPT ![t] = [on |-> TRUE, done |-> FALSE, atc |-> {k \in DOMAIN amap : Present(amap, k)},
                                 ever |-> {<<k, amap[k].v>> : k \in {c \in DOMAIN amap : Present(amap, c)}},
-                                touched |-> {}, yl |-> <<>>]]
+                                touched |-> {}, yl |-> <<>>, rm |-> {}]]
   /\ Goto(t, "ItNext")
   /\ UnchHeap /\ UnchTab /\ UnchCtl /\ UNCHANGED <<res, before, doneOps, idx, mig, pubs, fins, joins, amap>>
 ItNext(t) ==      \* next(): prev.next.load (if there is a previous node)
@@ -710,11 +719,53 @@ ItDescend(t) ==   \* forwarding marker: t.next_table; push_state(t, i, n)
      SetLoc(t, [l EXCEPT !.tb = tabs[l.tb].next, !.prev = NULL, !.stk = Append(l.stk, <<l.tb, TLen(l.tb), l.ix>>)])
   /\ Goto(t, "ItLoop")
   /\ UnchHeap /\ UnchTab /\ UnchCtl /\ UnchHist
-ItYield(t) ==     \* node.value.load: the pair handed to the caller
+ItYield(t) ==     \* node.value.load: the pair handed to the caller / to retain's predicate
   /\ pc[t] = "ItYield"
-  /\ ith' = [ith EXCEPT ![t].yl = Append(@, <<node[loc[t].prev].key, node[loc[t].prev].val>>)]
-  /\ Goto(t, "ItNext") /\ UNCHANGED loc
+  /\ LET p == loc[t].prev  o == CurOp(t)  k == node[p].key  v == node[p].val IN
+     /\ ith' = [ith EXCEPT ![t].yl = Append(@, <<k, v>>)]
+     /\ IF o.op \in RetainOps /\ ~Keep(o.f, k)
+        THEN SetLoc(t, [loc[t] EXCEPT !.itb = loc[t].tb, !.rk = k, !.ov = v]) /\ Goto(t, "RtLoadTable")
+        ELSE Goto(t, "ItNext") /\ UNCHANGED loc
   /\ UnchHeap /\ UnchTab /\ UnchCtl /\ UNCHANGED <<res, before, doneOps, idx, mig, pubs, fins, joins, amap>>
+
+(* ---- retain / retain_force: replace_node(k, None, observed value) for a rejected entry -------- *)
+(* RETAINCHECK = FALSE drops the observed-value test of plain retain (self-test of RetainOK).       *)
+BackToIter(t) == SetLoc(t, [loc[t] EXCEPT !.tb = loc[t].itb]) /\ Goto(t, "ItNext")
+RtLoadTable(t) ==
+  /\ pc[t] = "RtLoadTable"
+  /\ IF table = 0 THEN BackToIter(t) ELSE SetLoc(t, [loc[t] EXCEPT !.tb = table]) /\ Goto(t, "RtLoadBin")
+  /\ UnchHeap /\ UnchTab /\ UnchCtl /\ UnchHist
+RtLoadBin(t) ==
+  /\ pc[t] = "RtLoadBin"
+  /\ LET tb == loc[t].tb  b == tabs[tb].bins[BinI(tb, loc[t].rk)] IN
+     IF b = NULL THEN BackToIter(t)
+     ELSE SetLoc(t, [loc[t] EXCEPT !.b = b]) /\ Goto(t, IF b = FWD THEN "HLoadNt" ELSE "RtLock")
+  /\ UnchHeap /\ UnchTab /\ UnchCtl /\ UnchHist
+RtLock(t) ==
+  /\ pc[t] = "RtLock" /\ lockOwner[loc[t].b] = 0
+  /\ lockOwner' = [lockOwner EXCEPT ![loc[t].b] = t] /\ Goto(t, "RtReval")
+  /\ UNCHANGED <<node, nextId, loc>> /\ UnchTab /\ UnchCtl /\ UnchHist
+RtReval(t) ==     \* still the head? find the key; remove it if (retain) its value is still the judged one
+  /\ pc[t] = "RtReval"
+  /\ LET l == loc[t]  tb == l.tb  k == l.rk  i == BinI(tb, k)  b == l.b  o == CurOp(t) IN
+     IF tabs[tb].bins[i] # b
+     THEN /\ lockOwner' = [lockOwner EXCEPT ![b] = 0] /\ Goto(t, "RtLoadBin")
+          /\ UNCHANGED <<node, nextId, loc>> /\ UnchTab /\ UnchCtl /\ UnchHist
+     ELSE LET f == FindIn(b, NULL, k, 0)  hit == f[1]  pred == f[2] IN
+          IF hit = NULL \/ (o.op = "retain" /\ RETAINCHECK /\ node[hit].val # l.ov)
+          THEN /\ lockOwner' = [lockOwner EXCEPT ![b] = 0] /\ BackToIter(t)
+               /\ UNCHANGED <<node, nextId>> /\ UnchTab /\ UnchCtl /\ UnchHist
+          ELSE /\ IF pred = NULL
+                  THEN tabs' = [tabs EXCEPT ![tb].bins[i] = node[hit].next] /\ UNCHANGED node
+                  ELSE node' = [node EXCEPT ![pred].next = node[hit].next] /\ UNCHANGED tabs
+               /\ lockOwner' = [lockOwner EXCEPT ![b] = 0]
+               /\ SetLoc(t, [l EXCEPT !.c = -1, !.hint = FALSE]) /\ Goto(t, "AcFetch")
+               /\ amap' = [amap EXCEPT ![k] = Absent]
+               /\ ith' = [u \in Threads |->
+                            IF u = t THEN [ith[u] EXCEPT !.touched = @ \cup {k}, !.rm = @ \cup {<<k, node[hit].val, o.f, o.op = "retain_force">>}]
+                            ELSE IF ith[u].on THEN [ith[u] EXCEPT !.touched = @ \cup {k}] ELSE ith[u]]
+               /\ UNCHANGED <<ntabs, table, nextTable, nextId>> /\ UnchCtl
+               /\ UNCHANGED <<res, before, doneOps, idx, mig, pubs, fins, joins>>
 
 Step(t) ==
    \/ Call(t) \/ LoadTable(t) \/ ClrLoadTable(t) \/ ClrLoadBin(t) \/ ClrLock(t) \/ ClrReval(t) \/ ItNew(t) \/ ItNext(t) \/ ItLoop(t) \/ ItDescend(t) \/ ItYield(t)
@@ -725,6 +776,7 @@ Step(t) ==
    \/ XSwapNext(t) \/ XStoreTi(t) \/ XLoadNt(t) \/ XClaim(t) \/ XCasTi(t) \/ XCheck(t) \/ XLoadScLeave(t) \/ XCasLeave(t)
    \/ XLoadBin(t) \/ XAdv(t) \/ XCasFwd(t) \/ XLock(t) \/ XReval(t) \/ XStoreLo(t) \/ XStoreHi(t) \/ XStoreFwd(t)
    \/ XClearNext(t) \/ XSwapTable(t) \/ XStoreSc(t)
+   \/ RtLoadTable(t) \/ RtLoadBin(t) \/ RtLock(t) \/ RtReval(t)
    \/ RsLoadCnt(t) \/ PsLoadSc(t) \/ PsLoadTable(t) \/ PsCasInit(t) \/ PsInitRecheck(t) \/ PsInitRestore(t)
    \/ PsInitSwap(t) \/ PsInitStoreSc(t) \/ PsRecheck(t) \/ PsCasStart(t)
 Next == \E t \in Threads : Step(t)
@@ -752,8 +804,8 @@ Lin(m, remaining) ==
         /\ Lin(ApplyState(m, OpOf(o)), remaining \ {o})
 \* (iterations and clear() are not atomic: they are judged by IterWeak / GhostOK / QuiescentOK; programs
 \* containing clear() are checked without Linearizable)
-HasClear == \E o \in AllOps : OpOf(o).op = "clear"
-Linearizable == (AllDone /\ ~HasClear) => Lin(Abs0, {o \in AllOps : OpOf(o).op # "iter"})
+HasClear == \E o \in AllOps : OpOf(o).op \in {"clear"} \cup RetainOps
+Linearizable == (AllDone /\ ~HasClear) => Lin(Abs0, {o \in AllOps : OpOf(o).op \notin {"iter", "reserve"}})
 
 \* C11 (safety part): no reachable state in which an unfinished thread set is stuck
 NoDeadlock == ~AllDone => ENABLED Next
@@ -794,6 +846,12 @@ IterWeak ==
   \A t \in Threads : ith[t].done =>
     /\ \A k \in ith[t].atc \ ith[t].touched : Count(ith[t].yl, k) = 1
     /\ \A i \in 1..Len(ith[t].yl) : ith[t].yl[i] \in ith[t].ever
+\* C13: a retain call removes only entries its predicate rejected, and (plain retain) only the value instance
+\* the predicate was shown; retain_force removes a rejected key whatever its current value
+RetainOK ==
+  \A t \in Threads : \A r \in ith[t].rm :
+     /\ ~Keep(r[3], r[1])
+     /\ \E i \in 1..Len(ith[t].yl) : ith[t].yl[i][1] = r[1] /\ (r[4] \/ ith[t].yl[i][2] = r[2])
 \* the ghost contents agree with what lookups find at quiescence
 GhostOK == AllDone =>
   \A k \in DOMAIN amap :
